@@ -110,6 +110,18 @@ def check_sweep(case, ctx):
             if not ctx.check(ch is None, "C16/mutates-buffer", f"{name} modified {ch}", op=name):
                 return
             ctx.cls("op:" + name.split(".get")[0])
+    # ---- every listed instrument quotes its own pricer's value, whichever other quotes were read before
+    listed = [h for h in hedge_list(objs) + [deriv] if isinstance(h, I.BaseDerivative) and h.is_listed]
+    with torch.no_grad():
+        for order in (listed, listed[::-1]):
+            for a in order:
+                with ctx.sut("C16/sweep/hedge.spot"):
+                    got, want = a.spot, a.pricer(a)
+                if not ctx.check(got.shape == want.shape and bool(((got == want) | (got.isnan() & want.isnan())).all()), "C16/history-dependence",
+                                 f"the quoted price of listed {type(a).__name__}(strike={getattr(a, 'strike', None)}) is not its pricer's value "
+                                 f"after the quotes of {len(listed) - 1} other listed instruments were read"):
+                    return
+    ctx.cls("listed-instruments:%d" % len(listed))
     # ---- caller tensors
     g = torch.Generator().manual_seed(case["sim_seed"])
     n = case["n_paths"] + 1
@@ -199,6 +211,7 @@ def history_case(draw):
         st.tuples(st.just("compute_loss"), di, npath, seed_s), st.tuples(st.just("price"), di, npath, seed_s),
         st.tuples(st.just("fit"), di, npath, seed_s), st.tuples(st.just("to"), st.sampled_from(["float32", "float64"])),
         st.tuples(st.just("mode"), st.sampled_from(["train", "eval"])), st.tuples(st.just("bindings"), di),
+        st.tuples(st.just("backward"), di, npath, seed_s),
     )
     ops = draw(st.lists(op_s, min_size=2, max_size=10))
     return {"H": H, "inputs": inputs, "uls": uls, "ders": ders, "ops": [list(o) for o in ops], "model_seed": draw(seed_s),
@@ -233,7 +246,7 @@ def check_history(case, ctx):
         ul = uls[d["ul"]]
         ders.append(getattr(I, d["type"])(ul, strike=d["strike"], maturity=d["steps"] * ul.dt))
         if H == 2:
-            o = I.EuropeanOption(ul, strike=1.02, maturity=d["steps"] * ul.dt)
+            o = I.EuropeanOption(ul, strike=1.02 + 0.01 * len(hedges), maturity=d["steps"] * ul.dt)
             o.list(PRICERS["tanh"], cost=1e-3)
             hedges.append([ul, o])
         else:
@@ -255,7 +268,17 @@ def check_history(case, ctx):
     def fresh():
         f = Hedger(copy.deepcopy(hedger.model), _build_inputs(case["inputs"], cur_dtype), criterion=copy.deepcopy(hedger.criterion))
         f.train(hedger.training)
+        for p_ in f.parameters():
+            p_.grad = None  # gradients left by the caller's own backward passes are not parameters
         return f
+
+    def hold():
+        """Series the caller still holds (e.g. to plot them) while the instruments are simulated again."""
+        return [(type(u).__name__ + "." + n, b, b.detach().clone()) for u in uls for n, b in u.named_buffers()]
+
+    def held_intact(held, label):
+        bad = tensors_unchanged(held)
+        return ctx.check(bad is None, "C16/mutates-buffer", f"{label}: simulating again overwrote the series '{bad}' the caller still holds")
 
     def same(a, b):
         return a.shape == b.shape and a.dtype == b.dtype and bool(((a == b) | (a.isnan() & b.isnan())).all())
@@ -271,11 +294,20 @@ def check_history(case, ctx):
     for step, o in enumerate(case["ops"]):
         kind = o[0]
         label = f"op#{step} {o}"
+        held = hold() if kind in ("simulate", "compute_loss", "price", "fit", "backward") else []
         if kind == "simulate":
             _, i, n, seed = o
             torch.manual_seed(seed)
             with ctx.sut("C16/history/simulate"):
                 ders[i].simulate(n_paths=n)
+        elif kind == "backward":
+            # the caller's own training step: leaves .grad on the parameters (and, like fit, simulates)
+            _, i, n, seed = o
+            torch.manual_seed(seed)
+            with ctx.sut("C16/history/backward"):
+                l_ = hedger.compute_loss(ders[i], hedge=hedges[i], n_paths=n)
+                if l_.requires_grad and bool(torch.isfinite(l_)):
+                    l_.backward()
         elif kind in ("compute_hedge", "compute_pl", "compute_portfolio"):
             i = o[1]
             ensure_sim(i)
@@ -350,6 +382,8 @@ def check_history(case, ctx):
                 after = fi.get(None)
                 if not ctx.check(same(before, after), "C16/feature-binding", f"{label}: feature {n} bound to one derivative changed after .of(another)"):
                     return
+        if held and not held_intact(held, label):
+            return
     ctx.nontrivial((len(used) >= 2 and "prev_hedge" in case["inputs"]) or (computed >= 1 and any("log" in n for n in case["inputs"])))
     ctx.cls("derivs-used:%d" % len(used), "H:%d" % H, "state-dependent:" + str("prev_hedge" in case["inputs"]),
             "ops:%d" % len(case["ops"]), "model:" + case["model"])
@@ -370,7 +404,7 @@ SUBS = [
         examples={"quick": 640, "thorough": 6400}),
     Sub("history", check_history,
         rule="op sequences of length 2..10 over {simulate, compute_hedge, compute_pl, compute_portfolio, compute_loss, price, fit(1 epoch), "
-             "to(dtype), train/eval, feature re-binding} on one hedger (Linear / MLP / recurrent; H in {1,2}; inputs incl. log, "
+             "to(dtype), train/eval, feature re-binding, caller's own loss.backward()}; buffers held by the caller across every re-simulating op must stay bitwise intact; on one hedger (Linear / MLP / recurrent; H in {1,2}; inputs incl. log, "
              "max-log, module-output and prev_hedge features) with 2-3 derivatives on 2 underliers. Non-trivial: >=2 derivatives "
              "used with a state-dependent input, or a computing op with a log feature.",
         strategy=lambda tier: history_case(), examples={"quick": 1600, "thorough": 16000}, fuzz={"thorough": 120.0}),
